@@ -139,6 +139,16 @@ pub fn tol_eq(got: &Cell, exp: &Cell) -> bool {
         _ => exact_eq(got, exp),
     }
 }
+thread_local! {
+    /// additional absolute tolerance (default 0), set by families whose *history* holds values many orders
+    /// of magnitude larger than the results: an incrementally maintained state legitimately carries
+    /// rounding noise of the order eps * (largest value seen), which has nothing to do with the size of
+    /// the current result (DESIGN 5.2)
+    static ABS_TOL: std::cell::Cell<f64> = const { std::cell::Cell::new(0.0) };
+}
+pub fn set_abs_tol(v: f64) {
+    ABS_TOL.with(|t| t.set(v));
+}
 pub fn close(g: f64, e: f64) -> bool {
     if g == e {
         return true;
@@ -146,7 +156,7 @@ pub fn close(g: f64, e: f64) -> bool {
     if !g.is_finite() || !e.is_finite() {
         return false;
     }
-    (g - e).abs() <= TOL * e.abs().max(1.0)
+    (g - e).abs() <= TOL * e.abs().max(1.0) + ABS_TOL.with(|t| t.get())
 }
 
 pub fn cells_eq(a: &[Cell], b: &[Cell], f: fn(&Cell, &Cell) -> bool) -> bool {
